@@ -26,7 +26,7 @@ def run(chk):
     chk.rule = ("op partial: full build + partial builds for all 2^n masks of small inputs (n <= 6) and random/all/none/single masks of larger ones (n up to 36 quick / 206 thorough), "
                 "1D/2D/3D, periodic or not; selected cells compared bitwise, face sets exactly, areas within tolerance; op routes: masks against Model/Tess; "
                 "non-trivial = mask with at least one selected and one unselected cell; distinct by (record, mask)")
-    chk.lean(['MVoro.Props.C07', 'MVoro.Proofs.TessBook'], [], [])
+    chk.lean(['MVoro.Props.C07', 'MVoro.Proofs.TessBook'], ['MVoro.Obl.Rules'], ['Rules'])
     got = run_cells_op(chk, op='partial')
     if got is None:
         return
@@ -49,6 +49,11 @@ def run(chk):
             ms = t.next()
             mask = [c == '1' for c in ms]
             p = parse_voronoi_tok(t)
+            if t.peek() == 'GCA':
+                t.next()
+                gca = t.next()
+                if gca != ms:
+                    chk.violation('impl-vs-oracle', 'VoronoiIntegrator::get_cell_at: presence / idx pattern %s differs from the mask (record %d, %s, mask %s)' % (gca, r.id, r.family, ms), rp, key='gca')
             chk.count()
             where = '(record %d, %s, mask %s)' % (r.id, r.family, ms)
             if any(mask) and not all(mask):
